@@ -5909,8 +5909,11 @@ class Lazy(Subconstruct):
             obj = self.subcon._parsereport(stream, context, path)
             stream_seek(stream, fallback, 0, path)
             return obj
-        len = self.subcon._actualsize(stream, context, path)
-        stream_seek(stream, offset + len, 0, path)
+        try:
+            len = self.subcon._actualsize(stream, context, path)
+            stream_seek(stream, offset + len, 0, path)
+        except SizeofError:
+            self.subcon._parse(stream, context, path)
         return execute
 
     def _build(self, obj, stream, context, path):
